@@ -306,6 +306,30 @@ that type -/
 theorem struct_members_agree_cython : StructMembersAgree struct_cython struct_c :=
   structMembersB_sound (by decide +kernel)
 
+/-- C++ (`cplusplus/xraylib++.h`): the value classes `compoundData`, `compoundDataNIST`, `radioNuclideData`, `Crystal::Atom`, `Crystal::Struct` are what the
+wrappers hand out in place of the C structs (each has a constructor from a pointer / reference to its struct, whose initialiser list copies field by
+field).  Every data member is declared with the type of the field it is a copy of, under the map `int` / `double` / `float` ↦ the same scalar,
+`std::string` ↦ `char *`, `std::vector<T>` ↦ `T *` (with its count field an `int` field of the struct), `std::vector<Atom>` ↦ `Crystal_Atom *`; a
+declared type outside the map (code 900) agrees with no field.  (The C++ compiler does not object to `const int nAtomsAll` initialised from the
+`double` field: it narrows silently.)  `struct_cpp` is keyed by the mirrored C struct; the member ↦ field map is the one C18 extracts from the
+constructors. -/
+theorem struct_members_agree_cpp : StructMembersAgree struct_cpp struct_c :=
+  structMembersB_sound (by decide +kernel)
+
+/-- the table of `struct_members_agree_cpp` is the real one: at least 5 classes with at least 37 (field, type) rows, every one of them a struct of the
+C table; it contains the rows `compoundData.nAtomsAll : double` and `Crystal_Struct.atom : Crystal_Atom *`; at least 13 rows are vectors / strings
+(pointer class), at least 14 `double`, at least 10 `int`; and no row carries the code of an unmapped type -/
+theorem struct_members_cpp_nonvacuous :
+    struct_cpp.length ≥ 5 ∧ (struct_cpp.map (·.fields.length)).sum ≥ 37 ∧
+    (struct_cpp.all fun s => struct_c.any fun h => h.n == s.n) = true ∧
+    (struct_cpp.any fun s => s.n == name_compoundData && s.fields.contains (name_nAtomsAll, 200)) = true ∧
+    (struct_cpp.any fun s => s.n == name_Crystal_Struct && s.fields.contains (name_atom, 313)) = true ∧
+    ((struct_cpp.map fun s => (s.fields.filter fun f => f.2 / 100 == 3).length).sum ≥ 13) ∧
+    ((struct_cpp.map fun s => (s.fields.filter fun f => f.2 == 200).length).sum ≥ 14) ∧
+    ((struct_cpp.map fun s => (s.fields.filter fun f => f.2 == 100).length).sum ≥ 10) ∧
+    (struct_cpp.all fun s => s.fields.all fun f => f.2 / 100 != 9) = true := by
+  decide +kernel
+
 /-- the upper-case copy of the C struct table is the C struct table (same structs, same type sequences) -/
 theorem struct_c_uc_is_struct_c :
     struct_c_uc.map (fun s => (s.n, s.fields.map (·.2))) = struct_c.map (fun s => (s.n, s.fields.map (·.2))) := by
@@ -402,6 +426,12 @@ example : bindsOwnB [5, 7] [7] [(5, 5), (5, 6)] = true := by decide
 example : structsB [⟨5, [(1, 100), (2, 300)]⟩] [⟨5, [(1, 100), (2, 305)]⟩] = true := by decide
 example : structsB [⟨5, [(2, 300), (1, 100)]⟩] [⟨5, [(1, 100), (2, 305)]⟩] = false := by decide
 example : structsB [⟨5, [(1, 200)]⟩] [⟨5, [(1, 100)]⟩] = false := by decide
+/-- the C++ member comparison is not trivially true: `int nAtomsAll` against the struct's `double nAtomsAll` is rejected, so is an unmapped type (900)
+and a `std::vector<int>` against a `double *` field; the shipped shape is accepted whatever the member order -/
+example : structMembersB [⟨5, [(1, 100), (2, 100)]⟩] [⟨5, [(1, 100), (2, 200), (3, 304)]⟩] = false := by decide
+example : structMembersB [⟨5, [(2, 900)]⟩] [⟨5, [(1, 100), (2, 200)]⟩] = false := by decide
+example : structMembersB [⟨5, [(3, 304)]⟩] [⟨5, [(1, 100), (3, 305)]⟩] = false := by decide
+example : structMembersB [⟨5, [(3, 304), (2, 200), (1, 100)]⟩] [⟨5, [(1, 100), (2, 200), (3, 304)]⟩] = true := by decide
 /-- the checker is not trivially true: a one-entry binding table with a wrong value is rejected -/
 example : agreeB [] [⟨5, 0, 1, 0⟩] [⟨5, 0, 2, 0⟩] = false := by decide
 example : completeB [] [5] [4, 6] = false := by decide
